@@ -528,7 +528,7 @@ SUM_TEMPLATES = [
     '<rect x="#" y="#" width="#" height="#" rx="2" stroke="black" stroke-width="#"/>',
     '<rect width="5" height="5" stroke="black" stroke-dasharray="# # #" stroke-dashoffset="#"/>',
     '<circle cx="#" cy="#" r="3"/>', '<ellipse cx="#" cy="#" rx="2" ry="3"/>', '<line x1="#" y1="#" x2="#" y2="#" stroke="red"/>',
-    '<polyline points="# # # # # #" stroke="red"/>', '<path d="M # # L # # C # # # # # # Z" stroke="red" stroke-width="#"/>',
+    '<polyline points="# # # # # #" stroke="red"/>', '<path d="M # # L # # C # # # # # # Q # # # # Z" stroke="red" stroke-width="#"/>',
     '<g transform="scale(#) translate(# #)"><g transform="scale(# #) rotate(# # #)"><rect width="#" height="#"/></g></g>',
     '<g transform="matrix(# # # # # #)"><rect width="1" height="1" transform="matrix(# # # # # #)"/></g>',
     '<svg x="#" y="#" width="#" height="#" viewBox="# # # #"><rect width="1" height="1"/></svg>',
